@@ -215,7 +215,7 @@ func (sh *shared) do(c Call, n int) Result {
 	}
 	defer atomic.AddInt32(&sh.inflight, -1)
 	var r Result
-	deterministic := !sh.s.Commit
+	deterministic := !sh.s.Commit && !sh.s.Lookup // a lookup table commits through multicommit: the placeholder commitment is random in a plain Solve
 	switch c.Op {
 	case "solve-r1cs", "solve-scs":
 		cs := sh.r1cs
